@@ -84,15 +84,16 @@ Definition status_rows (nodes : list nobs) : list srow :=
 
 (* ------------------------------------------------------------------------ *)
 (** * Script texts (LocalScriptAdapter._write_script), in submission order *)
-Record scr := mkScr { sc_name : str; sc_text : str; sc_restart : str }.
+(** [sc_file]: base name of the script file (["{}.sh".format(step.name)]) *)
+Record scr := mkScr { sc_name : str; sc_file : str; sc_text : str; sc_restart : str }.
 
 Definition local_script (cmd : str) : str := Str.s "#!/bin/bash" ++ c_nl :: c_nl :: cmd ++ [c_nl].
 
 Definition script_of (nodes : list nobs) (x : str) : scr :=
   match find_obs x nodes with
-  | Some o => mkScr x (local_script (o_cmd o))
+  | Some o => mkScr x (x ++ Str.s ".sh") (local_script (o_cmd o))
                     (match o_restart o with [] => [] | r => local_script r end)
-  | None => mkScr x [] []
+  | None => mkScr x [] [] []
   end.
 
 Definition scripts_of (nodes : list nobs) : list scr :=
@@ -123,7 +124,7 @@ Definition srow_eqb (a b : srow) : bool :=
   str_eqb (sr_name a) (sr_name b) && str_eqb (sr_ws a) (sr_ws b)
   && str_eqb (sr_state a) (sr_state b) && str_eqb (sr_params a) (sr_params b).
 Definition scr_eqb (a b : scr) : bool :=
-  str_eqb (sc_name a) (sc_name b) && str_eqb (sc_text a) (sc_text b)
+  str_eqb (sc_name a) (sc_name b) && str_eqb (sc_file a) (sc_file b) && str_eqb (sc_text a) (sc_text b)
   && str_eqb (sc_restart a) (sc_restart b).
 Definition xobs_eqb (a b : xobs) : bool :=
   result_eqb (x_obs a) (x_obs b) && list_eqb strs_eqb (x_polls a) (x_polls b)
@@ -154,6 +155,16 @@ Inductive txt_reloc (r r' : str) : str -> str -> Prop :=
 | tr_same : forall x, txt_reloc r r' x x
 | tr_sub : forall v comps a b, txt_reloc r r' a b ->
     txt_reloc r r' (replace v (base r comps) a) (replace v (base r' comps) b).
+
+(** MODELLING NOTE (--hashws).  Expand.v models staging with [hash_ws] off.  With
+    [hash_ws] on, the only change in Study._stage is that the second workspace
+    component of a parameterised instance (and its nickname, hence its script
+    file name) is [h combo] instead of [combo], where [h = md5(.).hexdigest()]
+    is applied to the COMBINATION STRING -- a value that never sees the root.
+    With [h] abstract: *)
+Definition hashed_comps (h : str -> str) (x combo : str) : list str := [x; h combo].
+Definition hashed_ws (san h : str -> str) (root x combo : str) : str :=
+  base root (map san (hashed_comps h x combo)).
 
 (** the observable with the two fields that can mention the root blanked *)
 Definition mask_nobs (o : nobs) : nobs :=
